@@ -152,7 +152,33 @@ def item_promise_shape():
             "(* 1: flag then value then notify_all under the condition; wait_for on the flag *)\n")
 
 
+FUTURES = "src/basilisp/lang/futures.py"
+FUTURE_SHAPES = {
+    "try:\n    return self._future.result(timeout=timeout)\nexcept _TimeoutError:\n    return timeout_val": 0,
+    "try:\n    return self._future.result(timeout=timeout)\nexcept _TimeoutError:\n"
+    "    if self._future.done():\n        return self._future.result()\n    return timeout_val": 1,
+}
+
+
+def future_mode():
+    tree = ast.parse(_src(FUTURES))
+    got = _norm(_find_class_fn(tree, "Future", "deref"))
+    if got not in FUTURE_SHAPES:
+        raise Refuse("Future.deref no longer has a modelled shape:\n" + got)
+    for name, shape in (("done", "return self._future.done()"), ("is_realized", "return self.done()")):
+        g = _norm(_find_class_fn(tree, "Future", name))
+        if g != shape:
+            raise Refuse(f"Future.{name} no longer has the modelled shape:\n{g}")
+    return FUTURE_SHAPES[got]
+
+
+def item_future_mode():
+    return (f"Definition future_deref_mode : N := {future_mode()}%N. "
+            "(* 0: TimeoutError -> timeout_val always; 1: only while the future is not done *)\n")
+
+
 ITEMS = [
+    ("future_deref_mode", item_future_mode),
     ("atom_cas_mode", item_cas_mode),
     ("delay_deref_mode", item_delay_mode),
     ("promise_shape", item_promise_shape),
